@@ -287,3 +287,50 @@ Proof.
   unfold fstep. rewrite <- (wp_gas_exact law cmom T (fp_body fp) Hc Hck [(1%Qc, m)] q s Hs Hq).
   apply E_ext. intros s'. symmetry. apply eval_single.
 Qed.
+
+(* ---- the simplest class: all variables finitely typed.  The universe of type-reduced monomials
+   (every typed variable with an exponent below the size of its type) is explicit and has
+   prod |T x| elements; inside it the worklist needs at most that much fuel.  That the universe
+   is closed under get_recurrence is decided by [universe_closedb] (kernel evaluation on Polar's
+   own flat programs, ./check C18); a proof for all flat programs whose variables are all typed
+   needs two facts about Poly.ptidy that are not proved here: its monomials are in normal form
+   with reduced exponents (degree bound of Poly.reduced_power) and mention only variables of the
+   program. ---- *)
+Fixpoint expvecs (T : tenv) : list mono :=
+  match T with
+  | [] => [[]]
+  | (x, vs) :: T' =>
+      flat_map (fun e => map (fun m => match e with O => m | _ => (x, e) :: m end) (expvecs T')) (seq 0 (List.length vs))
+  end.
+Definition reduced_universe (T : tenv) : list mono := map mnorm (expvecs T).
+Fixpoint prod_sizes (T : tenv) : nat :=
+  match T with [] => 1%nat | (_, vs) :: T' => (List.length vs * prod_sizes T')%nat end.
+
+Lemma flat_map_const_length {A B} (f : A -> list B) (l : list A) (n : nat) :
+  (forall a, In a l -> List.length (f a) = n) -> List.length (flat_map f l) = (List.length l * n)%nat.
+Proof.
+  induction l as [|a l IH]; intros H; cbn [flat_map List.length]; [reflexivity|].
+  rewrite app_length, (H a (or_introl eq_refl)), IH; [lia | intros b Hb; apply H; right; exact Hb].
+Qed.
+Lemma expvecs_length T : List.length (expvecs T) = prod_sizes T.
+Proof.
+  induction T as [|[x vs] T IH]; cbn [expvecs prod_sizes]; [reflexivity|].
+  rewrite (flat_map_const_length _ _ (prod_sizes T)).
+  - rewrite seq_length. reflexivity.
+  - intros e _. rewrite map_length. exact IH.
+Qed.
+Lemma reduced_universe_length T : List.length (reduced_universe T) = prod_sizes T.
+Proof. unfold reduced_universe. rewrite map_length. apply expvecs_length. Qed.
+
+Theorem finite_class_terminates cmom fp T M :
+  universe_closedb (polar_step cmom fp T) (reduced_universe T) = true ->
+  In (mnorm M) (reduced_universe T) ->
+  exists sys, recurrences_fp cmom (prod_sizes T) fp T M = Some sys /\
+              closed_sys sys /\ rows_ok (polar_step cmom fp T) sys /\ In (mnorm M) (map fst sys).
+Proof.
+  intros Hc HM. unfold recurrences_fp.
+  apply (recurrences_terminate (polar_step cmom fp T) (reduced_universe T)).
+  - apply universe_closedb_sound; exact Hc.
+  - exact HM.
+  - rewrite reduced_universe_length. apply Nat.le_refl.
+Qed.
